@@ -28,17 +28,25 @@ import tlc
 
 HUGE = 100000      # the model's "larger than anything" size (Arena.cfg)
 MODEL_CHUNK = 8    # Arena.cfg
+MODEL_BASE_ALIGN = 8   # Arena.cfg: placement of larger alignments depends on the base address
+
+
+ALL_VARIANTS = [("chunk", "raw"), ("chunk", "typed"), ("chunk", "vec"), ("chunk", "str"), ("chunk", "rawz"),
+                ("page", "raw"), ("page", "typed"), ("page", "vec"), ("page", "str"),
+                ("byte", "raw"), ("byte", "typed"), ("byte", "vec"), ("byte", "str")]
 
 
 def tier_params(tier):
+    """plans: (model constants, variants per history, share of histories also run on the global
+    scratch arena).  variants: "all" = every (scale, route) pair, N = (chunk, raw) plus N-1 rotating pairs."""
+    small3 = {"MAXOPS": 3, "MAXBLOCKS": 2, "MAXMARKS": 1, "PROFILE": "small"}
     if tier == "quick":
-        return {"model": {"MAXOPS": 3, "MAXBLOCKS": 2, "MAXMARKS": 1, "PROFILE": "small"},
-                "random": 150, "random_steps": 120, "tlc_timeout": 300}
-    return {"model": {"MAXOPS": 4, "MAXBLOCKS": 3, "MAXMARKS": 2, "PROFILE": "small"},
-            "random": 3000, "random_steps": 300, "tlc_timeout": 900}
+        return {"plans": [(small3, 2, 8)], "random": 150, "random_steps": 120, "tlc_timeout": 300}
+    mid4 = {"MAXOPS": 4, "MAXBLOCKS": 2, "MAXMARKS": 2, "PROFILE": "mid"}
+    return {"plans": [(small3, "all", 1), (mid4, 2, 16)], "random": 3000, "random_steps": 300, "tlc_timeout": 900}
 
 
-def enumerate_histories(params):
+def enumerate_histories(model, timeout):
     """Runs the refinement; returns (unique request histories, tlc result, op/outcome coverage)."""
     seen = {}
     cover = collections.Counter()
@@ -54,7 +62,7 @@ def enumerate_histories(params):
         if key not in seen:
             seen[key] = rec
 
-    r = tlc.run("mem/Arena.tla", "mem/Arena.cfg", workers=6, env=params["model"], timeout=params["tlc_timeout"], on_record=on_record)
+    r = tlc.run("mem/Arena.tla", "mem/Arena.cfg", workers=6, env=model, timeout=timeout, on_record=on_record)
     if r.timed_out or r.rc != 0:
         raise common.ToolError("Arena.tla: rc=%s timed_out=%s %s\n%s" % (r.rc, r.timed_out, r.errors[:4], "\n".join(r.tail[-10:])))
     need = ["alloc:ok", "alloc:fail", "allocz:ok", "grow:ok", "grow:fail", "shrink", "mark", "borrow", "reset", "release", "decommit"]
@@ -87,50 +95,41 @@ def scaled_ops(rec, unit, api):
     return ops
 
 
-def build_requests(hist, info, tier):
-    """history x scale x api route (x root).  Returns the request list; ids index `meta`."""
+def scales_of(info):
     chunk, page = info["chunk"], info["page"]
-    scales = [("chunk", max(1, chunk // MODEL_CHUNK)), ("page", max(1, page // MODEL_CHUNK)), ("byte", 1)]
-    routes = ["raw", "typed", "vec", "str", "rawz"]
-    reqs, meta = [], []
+    return {"chunk": max(1, chunk // MODEL_CHUNK), "page": max(1, page // MODEL_CHUNK), "byte": 1}
+
+
+def history_requests(hist, info, variants, global_share):
+    """Generator of requests: history x (scale, api route), plus the global scratch arena as root
+    for every `global_share`-th history.  Each request carries its own description under "m"."""
+    scales = scales_of(info)
+    cunit = scales["chunk"]
     for n, rec in enumerate(hist):
-        cap = rec["cap"] * (chunk // MODEL_CHUNK)
-        for sname, unit in scales:
-            # every route at the chunk scale; the raw route plus one rotating route at the finer scales
-            rs = routes if sname == "chunk" else ["raw", routes[1 + n % 4]]
-            for api in rs:
-                reqs.append({"id": len(meta), "cap": cap, "root": "own", "ops": scaled_ops(rec, unit, api)})
-                meta.append({"h": n, "scale": sname, "unit": unit, "api": api, "root": "own"})
-    return reqs, meta
+        cap = rec["cap"] * cunit
+        if variants == "all":
+            vs = ALL_VARIANTS
+        else:
+            vs = [ALL_VARIANTS[0]] + [ALL_VARIANTS[1 + (n * (variants - 1) + k) % (len(ALL_VARIANTS) - 1)] for k in range(variants - 1)]
+        for sname, api in vs:
+            unit = scales[sname]
+            m = {"scale": sname, "unit": unit, "api": api, "root": "own"}
+            if api == "raw" and sname != "chunk":
+                m["pred"] = [[o["pf"], o["pb"], o["px"], o["s"], o["a"]] for o in rec["ops"]]
+            yield {"cap": cap, "root": "own", "ops": scaled_ops(rec, unit, api), "m": m}
+        if n % global_share == 0:
+            yield {"cap": cap, "root": "global", "ops": scaled_ops(rec, cunit, "raw"),
+                   "m": {"scale": "chunk", "unit": cunit, "api": "raw", "root": "global"}}
 
 
-def global_requests(hist, info, first_id):
-    """The same histories on the process-wide scratch arena (scratch_arena(None), nested borrows):
-    one worker group per capacity because arena::init fixes the capacity per process."""
-    chunk = info["chunk"]
-    unit = max(1, chunk // MODEL_CHUNK)
-    groups = collections.defaultdict(list)
-    meta = {}
-    rid = first_id
-    for n, rec in enumerate(hist):
-        cap = rec["cap"] * unit
-        groups[cap].append({"id": rid, "cap": cap, "root": "global", "ops": scaled_ops(rec, unit, "raw")})
-        meta[rid] = {"h": n, "scale": "chunk", "unit": unit, "api": "raw", "root": "global"}
-        rid += 1
-    return groups, meta
-
-
-def random_requests(info, count, steps, first_id):
+def random_requests(info, count, steps):
     rnd = random.Random(common.seed() * 7919 + 11)
     chunk = info["chunk"]
-    reqs, meta = [], {}
     for k in range(count):
-        rid = first_id + k
         seed = rnd.randrange(1, 1 << 48)
         cap = chunk * (1 + k % 4)
-        reqs.append({"id": rid, "cap": cap, "root": "own", "random": {"seed": seed, "steps": steps}})
-        meta[rid] = {"h": None, "scale": "real", "unit": 1, "api": "mixed", "root": "own", "seed": seed, "cap": cap, "steps": steps}
-    return reqs, meta
+        yield {"cap": cap, "root": "own", "random": {"seed": seed, "steps": steps},
+               "m": {"scale": "real", "unit": 1, "api": "mixed", "root": "own"}}
 
 
 STEP_FIELDS = ("o", "i", "s", "a", "fail", "beg", "len", "amod", "off", "commit", "zero", "kept", "seen", "bad")
@@ -144,6 +143,104 @@ def to_trace(tid, resp):
 
 def align_class(a, page):
     return "align-above-base" if a > page else "align-within-base"
+
+
+class Judge:
+    """Streams requests through replay (both builds) and ArenaTrace validation, chunk by chunk."""
+
+    def __init__(self, v, info, timeout):
+        self.v = v
+        self.info = info
+        self.timeout = timeout
+        self.counts = collections.Counter()
+        self.api_used = collections.Counter()
+        self.outcome = collections.Counter()
+        self.vstats = {"runs": 0, "states": 0, "wall_s": 0.0}
+        self.accepted = self.rejected = 0
+        self.compared = self.deviations = 0
+        self.samples = []
+
+    def run(self, requests, chunk=30000):
+        buf = []
+        for rq in requests:
+            buf.append(rq)
+            if len(buf) >= chunk:
+                self.process(buf)
+                buf = []
+        if buf:
+            self.process(buf)
+
+    def process(self, reqs):
+        for i, rq in enumerate(reqs):
+            rq["id"] = i
+        own = [r for r in reqs if r["root"] == "own"]
+        glob = collections.defaultdict(list)          # arena::init fixes the capacity per process
+        for r in reqs:
+            if r["root"] == "global":
+                glob[r["cap"]].append(r)
+        for profile in ("dev", "fast"):
+            resps = memcheck.replay_batched(own, "arena", profile=profile, nworkers=8)
+            for cap, rs in sorted(glob.items()):
+                resps.update(memcheck.replay_batched(rs, "arena", profile=profile, nworkers=2))
+            self.judge(profile, reqs, resps)
+
+    def judge(self, profile, reqs, resps):
+        v = self.v
+        traces, by_id = [], {}
+        for rq in reqs:
+            resp = resps.get(rq["id"], {"st": "CRASH", "crash": {"msg": "no answer"}})
+            m = rq["m"]
+            self.counts["replays:" + profile] += 1
+            if resp.get("st") != "ok":
+                crash = resp.get("crash", {})
+                what = crash.get("sig") or resp.get("st")
+                v.finding("crash:%s" % what,
+                          "the arena crashed the harness (%s, %s %s) while replaying a history" % (resp.get("st"), crash.get("sig", ""), crash.get("msg", resp.get("panic", ""))),
+                          {"profile": profile, "request": rq, "response": resp})
+                continue
+            traces.append(to_trace(rq["id"], resp))
+            by_id[rq["id"]] = (rq, resp)
+            for st in resp["steps"]:
+                self.api_used[st["o"] + (":" + st.get("api", "") if st["o"] in ("alloc", "allocz", "grow", "shrink") else "")] += 1
+                self.outcome[st["o"] + (":fail" if st["fail"] else ":ok")] += 1
+                if "panic" in st and st.get("api") not in ("uninit", "uninit_slice"):
+                    v.finding("panic:%s" % st["o"], "operation %s panicked: %s" % (st["o"], st["panic"]),
+                              {"profile": profile, "request": rq, "step": st})
+        if not traces:
+            return
+        verdicts, vs = memcheck.validate("mem/ArenaTrace.tla", "mem/ArenaTrace.cfg", traces, "arena_traces",
+                                         batch=len(traces), workers=6, timeout=self.timeout)
+        self.vstats["runs"] += vs["runs"]
+        self.vstats["states"] += vs["states"]
+        self.vstats["wall_s"] = round(self.vstats["wall_s"] + vs["wall_s"], 1)
+        page = self.info["page"]
+        for tid, ver in verdicts.items():
+            rq, resp = by_id[tid]
+            m = rq["m"]
+            if ver["verdict"] == "accept":
+                self.accepted += 1
+                if len(self.samples) < 3 and (self.accepted % 9973 == 1):
+                    self.samples.append({"build": profile, "request": {k: rq[k] for k in rq if k not in ("m", "id", "modes")},
+                                         "recorded_steps": resp["steps"][:6], "verdict": "accept"})
+                for st, (pf, pb, px, ms, ma) in zip(resp["steps"], m.get("pred", [])):
+                    # information only: how closely the refinement predicts the real placement
+                    if pf or ms >= HUGE or st["fail"] or st["o"] == "skip" or ma > MODEL_BASE_ALIGN or ma * m["unit"] > page:
+                        break
+                    self.compared += 1
+                    if st["off"] != px * m["unit"] or (st["o"] in ("alloc", "allocz", "grow", "shrink") and st["beg"] != pb * m["unit"]):
+                        self.deviations += 1
+                continue
+            self.rejected += 1
+            why = ver["why"]
+            st = resp["steps"][ver["k"] - 1]
+            if why.startswith("harness-"):
+                raise common.ToolError("a trace was rejected for a harness reason (%s) at step %d: %s\nrequest %s" % (why, ver["k"], json.dumps(st), json.dumps(rq)))
+            key = "%s:%s:%s" % (why, st["o"], align_class(st["a"], page))
+            desc = ("the abstract arena specification rejects step %d (%s via %s, size %s, alignment %s) of a recorded history: %s "
+                    "[returned base+%s len %s, address mod alignment %s, offset() %s, commit %s; build %s, root %s]"
+                    % (ver["k"], st["o"], st.get("api"), st["s"], st["a"], why, st["beg"], st["len"], st["amod"], st["off"], st["commit"],
+                       profile, m["root"]))
+            v.finding(key, desc, {"profile": profile, "request": rq, "rejected_step": ver["k"], "why": why, "recorded": resp})
 
 
 def run(tier):
@@ -163,104 +260,45 @@ def run(tier):
         raise common.ToolError("unexpected chunk size %s" % info["chunk"])
 
     design_mutation()
-    hist, tlc_res, cover = enumerate_histories(params)
+    judge = Judge(v, info, params["tlc_timeout"])
+    models = []
+    states = transitions = unique = 0
+    for model, variants, gshare in params["plans"]:
+        hist, r, cover = enumerate_histories(model, params["tlc_timeout"])
+        states += r.distinct
+        transitions += r.generated
+        unique += len(hist)
+        models.append({"constants": model, "distinct_states": r.distinct, "transitions": r.generated, "depth": r.depth,
+                       "wall_s": round(r.wall, 1), "unique_histories": len(hist), "last_operation_kinds": dict(cover),
+                       "variants_per_history": variants, "global_scratch_share": "1/%d" % gshare})
+        judge.run(history_requests(hist, info, variants, gshare))
+        del hist
+    judge.run(random_requests(info, params["random"], params["random_steps"]))
 
-    # ---- replay -------------------------------------------------------------------------------
-    traces = []            # what ArenaTrace reads
-    tmeta = {}             # trace id -> (profile, request meta, request, response)
-    counts = collections.Counter()
-    api_used = collections.Counter()
-    outcome = collections.Counter()
-
-    def collect(profile, reqs, meta_of, resps):
-        for rq in reqs:
-            resp = resps.get(rq["id"], {"st": "CRASH", "crash": {"msg": "no answer"}})
-            m = meta_of(rq["id"])
-            counts["replays:" + profile] += 1
-            if resp.get("st") != "ok":
-                crash = resp.get("crash", {})
-                what = crash.get("sig") or resp.get("st")
-                key = "crash:%s:%s" % (what, m["root"])
-                v.finding(key, "the arena crashed the harness (%s, %s %s) while replaying a history" % (resp.get("st"), crash.get("sig", ""), crash.get("msg", resp.get("panic", ""))),
-                          {"profile": profile, "request": rq, "response": resp, "meta": m})
-                continue
-            tid = len(traces)
-            traces.append(to_trace(tid, resp))
-            tmeta[tid] = (profile, m, rq, resp)
-            for st in resp["steps"]:
-                api_used[st["o"] + ":" + st.get("api", "")] += 1
-                outcome[st["o"] + (":fail" if st["fail"] else ":ok")] += 1
-                if "panic" in st and st.get("api") not in ("uninit", "uninit_slice"):
-                    v.finding("panic:%s" % st["o"], "operation %s panicked: %s" % (st["o"], st["panic"]),
-                              {"profile": profile, "request": rq, "step": st, "meta": m})
-
-    reqs, meta = build_requests(hist, info, tier)
-    ggroups, gmeta = global_requests(hist, info, len(meta))
-    rreqs, rmeta = random_requests(info, params["random"], params["random_steps"], len(meta) + len(gmeta))
-    for profile in ("dev", "fast"):
-        collect(profile, reqs, lambda i: meta[i], memcheck.replay(reqs, "arena", profile=profile, nworkers=8))
-        for cap, greqs in sorted(ggroups.items()):
-            collect(profile, greqs, lambda i: gmeta[i], memcheck.replay(greqs, "arena", profile=profile, nworkers=4))
-        collect(profile, rreqs, lambda i: rmeta[i], memcheck.replay(rreqs, "arena", profile=profile, nworkers=8, timeout=120))
-
-    # ---- the verdict: the abstract layer accepts what the implementation did --------------------
-    verdicts, vstats = memcheck.validate("mem/ArenaTrace.tla", "mem/ArenaTrace.cfg", traces, "arena_traces",
-                                         batch=30000, workers=6, timeout=params["tlc_timeout"])
-    accepted = 0
-    deviations = compared = 0
-    for tid, ver in verdicts.items():
-        profile, m, rq, resp = tmeta[tid]
-        if ver["verdict"] == "accept":
-            accepted += 1
-            if m["h"] is not None and m["root"] == "own" and m["api"] == "raw" and m["scale"] != "chunk":
-                # information only: how closely the refinement predicts the real placement
-                for st, mo in zip(resp["steps"], hist[m["h"]]["ops"]):
-                    if mo["pf"] or mo["s"] >= HUGE or st["fail"] or mo["a"] * m["unit"] > info["page"]:
-                        break
-                    compared += 1
-                    if st["off"] != mo["px"] * m["unit"] or (st["o"] in ("alloc", "allocz", "grow", "shrink") and st["beg"] != mo["pb"] * m["unit"]):
-                        deviations += 1
-            continue
-        why = ver["why"]
-        st = resp["steps"][ver["k"] - 1]
-        if why.startswith("harness-"):
-            raise common.ToolError("trace %d rejected for a harness reason (%s) at step %d: %s" % (tid, why, ver["k"], json.dumps(st)))
-        key = "%s:%s:%s" % (why, st["o"], align_class(st["a"], info["page"]))
-        desc = ("the abstract arena specification rejects step %d (%s via %s, size %s, alignment %s) of a recorded history: %s "
-                "[returned base+%s len %s, address mod alignment %s, offset() %s, commit %s; build %s, root %s]"
-                % (ver["k"], st["o"], st.get("api"), st["s"], st["a"], why, st["beg"], st["len"], st["amod"], st["off"], st["commit"],
-                   profile, m["root"]))
-        v.finding(key, desc, {"profile": profile, "request": rq, "rejected_step": ver["k"], "why": why, "recorded": resp, "meta": m})
-
-    samples = []
-    for tid in (0, len(traces) // 2, len(traces) - 1):
-        if 0 <= tid < len(traces):
-            samples.append({"request": tmeta[tid][2], "recorded_steps": tmeta[tid][3]["steps"][:6], "verdict": verdicts[tid]["verdict"]})
     v.coverage = {
-        "states": tlc_res.distinct,
-        "transitions": tlc_res.generated,
-        "traces_validated_against_impl": accepted,
-        "traces_rejected": len(traces) - accepted,
-        "evaluations": sum(counts.values()),
-        "distinct_nontrivial": len(hist),
+        "states": states,
+        "transitions": transitions,
+        "traces_validated_against_impl": judge.accepted,
+        "traces_rejected": judge.rejected,
+        "evaluations": sum(judge.counts.values()),
+        "distinct_nontrivial": unique,
         "rule": "one operation history per transition of the refinement's reachable graph (shortest path to the pre-state + the "
                 "transition), de-duplicated by request sequence and with proper prefixes removed; non-trivial = at least one "
                 "operation; each is replayed in several scalings / API routes / builds, plus seeded long histories",
         "exhaustive": True,
-        "model": {"constants": params["model"], "distinct_states": tlc_res.distinct, "transitions": tlc_res.generated,
-                  "depth": tlc_res.depth, "wall_s": round(tlc_res.wall, 1), "last_operation_kinds": dict(cover),
-                  "refinement_checked_against_abstract_layer": True, "offset_alignment_design_rejected": True},
-        "unique_histories": len(hist),
+        "models": models,
+        "refinement_checked_against_abstract_layer": True,
+        "offset_alignment_design_rejected_by_the_specification": True,
         "random_long_histories": params["random"] * 2,
         "random_steps_each": params["random_steps"],
-        "replays": dict(counts),
-        "recorded_steps_by_operation_and_api": dict(api_used),
-        "recorded_steps_by_outcome": dict(outcome),
-        "trace_validation": vstats,
+        "replays": dict(judge.counts),
+        "recorded_steps_by_operation_and_api": dict(judge.api_used),
+        "recorded_steps_by_outcome": dict(judge.outcome),
+        "trace_validation": judge.vstats,
         "implementation_constants": {"chunk": info["chunk"], "page": info["page"], "slack_dev": infos["dev"]["slack"], "slack_fast": infos["fast"]["slack"]},
-        "refinement_predictions_compared": compared,
-        "refinement_deviations_information_only": deviations,
-        "samples": samples,
+        "refinement_predictions_compared": judge.compared,
+        "refinement_deviations_information_only": judge.deviations,
+        "samples": judge.samples,
     }
     v.assumptions = [
         "the harness' shadow table follows the abstract rule for liveness (reset kills exactly the blocks placed after the mark); ArenaTrace re-derives the live set and rejects a mismatch as a harness error",
